@@ -432,12 +432,13 @@ Fixpoint run (fl : flags) (w : world) (clients : list ckind) (st : state) (l : l
       (st2, rep :: reps)
   end.
 
-(* ---------- the specification: the reply computed for exactly that request ----- *)
+(* ---------- the repaired model's reply from the initial state ------------------------- *)
 
-(* what the registered handler produces for this request's content alone: the
-   step of the repaired code from the initial state *)
+(* [fixed_reply]: what the model with all repairs answers to one request in the initial
+   state.  It is a MODEL quantity (defined through [step]); the specification of the
+   property is Api/Spec.v:spec_reply, and Api/SpecProofs.v relates the two. *)
 Definition all_fixed : flags := {| fix_f17 := true; fix_keep := true |}.
 Definition pinned : flags := {| fix_f17 := false; fix_keep := false |}.
 
-Definition spec (w : world) (clients : list ckind) (cr : creq) : reply :=
+Definition fixed_reply (w : world) (clients : list ckind) (cr : creq) : reply :=
   snd (step all_fixed w clients (init_state w) cr).
